@@ -160,9 +160,10 @@ BuildR(b, table) ==
 
 \* ---- properties of a built container (checked by TLC on MC_Blte) ---------------------------------------
 \* natural numbers only: "does not tile" is reported by a value that cannot be the content length
-TilesTo(b) == LET RECURSIVE T(_, _)
+TilesTo(b) == LET br == Broken(b)
+                  RECURSIVE T(_, _)
                   T(i, at) == IF i > NChunks(b) THEN at
-                              ELSE IF i \in Broken(b) \/ b.chunks[i].off # at THEN b.clen + 1
+                              ELSE IF i \in br \/ b.chunks[i].off # at THEN b.clen + 1
                               ELSE T(i + 1, at + b.chunks[i].len)
               IN T(1, 0)
 Identity(b)      == TilesTo(b) = b.clen
@@ -206,6 +207,15 @@ ParseTable(h, total) ==
                      md5    |-> [i \in 1..n |-> SubSeq(h, E(i) + 8, E(i) + 23)],
                      dmd5   |-> [i \in 1..n |-> IF entry = 40 THEN SubSeq(h, E(i) + 24, E(i) + 39) ELSE <<>>],
                      off    |-> Offs(1, hs, <<>>)]
+
+\* The first 12 bytes only (containers whose table is too large to be logged): magic, header size, table format
+\* and the 24-bit chunk count, read from the raw bytes.
+ParseHead(h) ==
+  IF Len(h) < 12 \/ SubSeq(h, 1, 4) # Magic \/ h[5] >= 128 \/ h[9] \notin {15, 16}
+  THEN [wf |-> FALSE, hs |-> 0, entry |-> 0, n |-> 0]
+  ELSE LET entry == IF h[9] = 15 THEN 24 ELSE 40
+           n == BE3(h, 10)
+       IN [wf |-> n >= 1 /\ BE4(h, 5) = 12 + n * entry, hs |-> BE4(h, 5), entry |-> entry, n |-> n]
 
 \* Independent decoder for containers whose chunks are all stored (mode byte 'N' = 78): the concatenation
 \* of the chunk bodies.  bytes: the whole container, t: its parsed table.
